@@ -56,6 +56,29 @@ def handle : R String := do
     match Cli.parseInit s with
     | some l => pure s!"ok {wList wPair l}"
     | none => pure "none"
+  | "sigprog" => do
+    let st ← csettings
+    let ops ← list sop
+    pure (wBool (Sig.programConforms ops st))
+  | "tcop" => do
+    -- typecheck one operation against a symbol table
+    let asmOnly ← bool
+    let op ← sop
+    let tab ← symTab
+    pure (wMsgs (Chk.typecheckOp op tab asmOnly))
+  | "oplen" => do
+    let op ← sop
+    pure (toString (Chk.operationLength op))
+  | "check" => do
+    let st ← csettings
+    let ops ← list sop
+    match Chk.check ops st with
+    | .error e => pure s!"err {e.name}"
+    | .ok (p, m) =>
+      if !m.errors.isEmpty then pure s!"rejected {wMsgs m}"
+      else
+        let tab := String.intercalate " " (toString p.tab.length :: p.tab.map (fun kv => s!"{wVal kv.1} {wSymVal kv.2}"))
+        pure s!"ok {wMsgs m} {tab} {wList wROp p.data} {wList wROp p.code}"
   | "asm" => do
     let c ← cls
     let args ← list val
